@@ -102,6 +102,8 @@ def main(what, rest):
             if out.returncode != 0:
                 rc = 1
         return rc
+    if what == "findings":
+        return findings_selftest()
     if what == "determinism":
         props = rest or ["C05"]
         rc = 0
@@ -109,7 +111,7 @@ def main(what, rest):
             for workers in ("1", "16"):
                 digs = []
                 for hs in ("0", "777"):
-                    env = dict(os.environ, PYTHONHASHSEED=hs, VERIF_JOBS=workers)
+                    env = dict(os.environ, PYTHONHASHSEED=hs, VERIF_JOBS=workers, VERIF_DIGEST_JOBS=workers)
                     out = subprocess.run([PY, VCHECK, "digest", p, "--tier", "quick", "--seed", "5", "--jobs",
                                           ",".join(str(i) for i in range(0, 40))],
                                          capture_output=True, text=True, env=env, timeout=3600)
@@ -120,3 +122,48 @@ def main(what, rest):
                     rc = 1
         return rc
     return 2
+
+
+def findings_selftest():
+    """Exercise the known-finding path: with a mutant that breaks C08 only for
+    backslashes and an *open* finding whose triggers are the backslash choices,
+    the check must print KNOWN-FINDING and exit 0; with a second, unlisted
+    defect on top (double quotes unescaped too) it must still exit 1."""
+    from selftests import mutants as M
+    sys.path.insert(0, VERIF)
+    from scenarios import c08
+    bs_cls = c08.CLASS_NAMES.index("backslash")
+    trig = []
+    for lab in ("name", "name2", "content"):
+        trig.append(["wl", lab + ".txt.cls", bs_cls])
+    for lab in ("name", "name2", "content"):
+        for i, w in enumerate(c08.WHOLE):
+            if "\\" in w and i:
+                trig.append(["wl", lab + ".whole", i])
+    finding = {"findings": [{"id": "KF-selftest", "status": "open", "property": "C08", "clauses": ["C08.malformed", "C08.value"],
+                             "triggers": trig, "what": "selftest: backslash in a name is not escaped"}]}
+    m1 = [m for m in M.MUTANTS if m["name"] == "c08-no-backslash-escape"][0]
+    rc_all = 0
+    for label, extra, want in (("listed defect only", None, 0), ("listed + unlisted defect", "dq", 1)):
+        d = _scratch_copy()
+        try:
+            path = os.path.join(d, m1["file"])
+            src = open(path).read()
+            assert src.count(m1["old"]) == 1
+            new = m1["new"]
+            if extra:
+                new = "                    pass\n"
+            open(path, "w").write(src.replace(m1["old"], new))
+            fpath = os.path.join(d, "kf.json")
+            json.dump(finding, open(fpath, "w"))
+            env = dict(os.environ, VERIF_REPO=d, VERIF_NO_DETERMINISM="1", VERIF_FINDINGS=fpath,
+                       VERIF_REPLAY_DIR=os.path.join(d, "replays"), VERIF_EVIDENCE_DIR=os.path.join(d, "ev"))
+            out = subprocess.run([PY, VCHECK, "run", "C08", "--scale", "0.3"], capture_output=True, text=True, env=env, timeout=1200)
+            lines = [l for l in out.stdout.splitlines() if l.startswith(("KNOWN-FINDING", "VIOLATION", "PASS", "HARNESS", "violation:"))]
+            ok = out.returncode == want and (want == 1 or any(l.startswith("KNOWN-FINDING") for l in lines))
+            print("findings selftest [%s]: rc=%d (want %d) %s\n   %s" % (label, out.returncode, want, "OK" if ok else "WRONG", "\n   ".join(l[:220] for l in lines)))
+            if not ok:
+                rc_all = 1
+        finally:
+            shutil.rmtree(d, ignore_errors=True)
+    return rc_all
